@@ -53,6 +53,9 @@ class C05(Prop):
                 sizes = rng.sample(range(1, n + 2), 6) + [n, n + 1, max(1, n - 1), None]
             for bs in sizes:
                 yield Case('sort', (bs, rev, key, t), {'cache': rng.random() < 0.5})
+            # buffersize left to petl.config.sort_buffersize, which stays in force while the table is iterated
+            for cfg in rng.sample(range(1, n + 2), min(2, n + 1)):
+                yield Case('sort', (None, rev, key, t), {'cache': rng.random() < 0.5, 'cfg': cfg})
         # key=None on ragged rows: the key is the whole row, cells missing or beyond the header count as None / are ignored
         for _ in range(30 if tier == 'quick' else 300):
             hdr = ('a', 'b')
@@ -92,6 +95,13 @@ class C05(Prop):
             rev = rng.random() < 0.3
             bs = rng.choice([None, None, 1, 2, 3])
             yield Case('mergesort', (key, rev, False, None, None, bs, tuple(tabs)))
+        # issorted by the first column given as index 0: ties in that column, other cells in any order
+        for rows in (((1, 'b'), (1, 'a'), (2, 'c')), ((None, 2), (None, 1)), ((1, 'z'), (True, 'y'), (1.0, 'x')),
+                     ((0, 9), (0, 1), (0, 5), (1, 0)), ((2, 'a'), (1, 'b'))):
+            for strict in (False, True):
+                for rev in (False, True):
+                    yield Case('issorted', (0, rev, strict, (('k', 'v'),) + rows))
+                    yield Case('issorted', ('k', rev, strict, (('k', 'v'),) + rows))
         # issorted
         nis = 150 if tier == 'quick' else 2000
         for _ in range(nis):
@@ -116,11 +126,18 @@ class C05(Prop):
             bs, rev, key, t = case.arg
             cache = case.meta.get('cache', True)
             src = [list(r) for r in t]
-            with tempfile.TemporaryDirectory(dir='/var/tmp') as td:
-                v = etl.sort(src, key=key, reverse=rev, buffersize=bs, cache=cache, tempdir=td)
-                o1 = obs_rows(v)
-                o2 = obs_rows(v)
-                del v
+            import petl.config as config
+            old_cfg = config.sort_buffersize
+            if case.meta.get('cfg') is not None:
+                config.sort_buffersize = case.meta['cfg']
+            try:
+                with tempfile.TemporaryDirectory(dir='/var/tmp') as td:
+                    v = etl.sort(src, key=key, reverse=rev, buffersize=bs, cache=cache, tempdir=td)
+                    o1 = obs_rows(v)
+                    o2 = obs_rows(v)
+                    del v
+            finally:
+                config.sort_buffersize = old_cfg
             if o1 != o2:
                 return ('tu', (codec.t_str('!passes-differ'), o1, o2))
             return o1
